@@ -3,7 +3,8 @@
 (* interpreter (many in ONE run, so that the memoised format translation is      *)
 (* exercised) against Printf.tla.                                                 *)
 (*   {"ev":"step","fmt":bytes,"args":[{"tag","s","n":{"t","neg","d","x"}}],     *)
-(*    "chars":bool,"err":bool,"out":bytes,"k":call number}                        *)
+(*    "chars":bool,"cf":CONVFMT text in force ("%.Ng" / "%.Nf" / "%.Ne"),         *)
+(*    "err":bool,"out":bytes,"k":call number}                                     *)
 (*        tag "num" / "str" (a constant) / "strnum" (text the program read from   *)
 (*        its input) / "null" (an uninitialised variable)                          *)
 (*   {"ev":"print","args":[...],"of":OFMT text,"cf":CONVFMT text,                 *)
@@ -27,25 +28,28 @@ ArgV(a) == CASE a.tag = "num" -> VNum(MkNum(a.n.neg, a.n.d, a.n.x))
              [] OTHER -> VStr(a.s)
 ArgsOf(ev) == [j \in 1..Len(ev.args) |-> ArgV(ev.args[j])]
 
+\* the CONVFMT in force at a call (%s of a number is the number -> string conversion under it)
+CfOf(ev) == LET d == DirOf(ev.cf)
+            IN [verb |-> (CASE d.verb = c_f -> "f" [] d.verb = c_e -> "e" [] OTHER -> "g"), prec |-> d.pn]
 Explains(ev, r) ==
   IF r.err THEN ev.err
   ELSE IF IsUnmStr(r.out) THEN TRUE
   ELSE ~ev.err /\ r.out = ev.out
 ExplainsSome(ev, r, args) ==
   \/ Explains(ev, r)
-  \/ HasOpenArg(args) /\ \E dl \in Dialects : Explains(ev, FormatD(ev.fmt, args, ev.chars, Cf6, dl))
+  \/ HasOpenArg(args) /\ \E dl \in Dialects : Explains(ev, FormatD(ev.fmt, args, ev.chars, CfOf(ev), dl))
 
 \* what the specification says about a rejected call (with the description the failure signature needs)
 Info(ev, r) ==
   LET args == ArgsOf(ev)
-      alts == FormatAlts(ev.fmt, args, ev.chars, Cf6)
-  IN CallJ("k", ev.fmt, DirOf(ev.fmt), args, ev.chars, r, {q \in alts : ~IsUnmStr(q.out)})
+      alts == FormatAlts(ev.fmt, args, ev.chars, CfOf(ev))
+  IN CallJ("k", ev.fmt, DirOf(ev.fmt), args, ev.chars, r, {q \in alts : ~IsUnmStr(q.out)}) @@ [cf |-> ev.cf]
 
 TStep ==
   /\ l <= NLog /\ Log[l].ev = "step"
   /\ LET ev == Log[l]
          args == ArgsOf(ev)
-         r == Format(ev.fmt, args, ev.chars, Cf6)
+         r == Format(ev.fmt, args, ev.chars, CfOf(ev))
      IN IF ExplainsSome(ev, r, args)
         THEN l' = l + 1
         ELSE /\ Reject(l, Info(ev, r))
